@@ -1119,6 +1119,24 @@ fn monitors(
             // C07: burned amount left the asset's supply
             mon.check("C07", "trio_burn_leaves_supply", a.sup[ask] - b.sup[ask] == bf, || format!("supply {} -> {} burn fee {bf}", a.sup[ask], b.sup[ask]));
             w.burned_sum[ask] += a.sup[ask] - b.sup[ask];
+            // C15: an accepted swap WITH a belief price got at least expected·(1 − limit), where
+            // expected = offer · ⌊10^36 / belief⌋ / 10^18 and limit = min(max_spread ?? 1%, 50%)
+            if let Some(bp) = _bp {
+                if *bp > 0 {
+                    let gross = ret + sf_rec + pf + bf;
+                    let lim = ms.unwrap_or(E18 / 100).min(E18 / 2);
+                    let inv = Uint256::from(E18) * Uint256::from(E18) / Uint256::from(*bp);
+                    let expected = Uint256::from(amt) * inv / Uint256::from(E18);
+                    if Uint256::from(gross) < expected {
+                        let short = expected - Uint256::from(gross);
+                        let ratio = short * Uint256::from(E18) / expected;
+                        mon.check("C15", "trio_belief_price_respected", ratio <= Uint256::from(lim), || {
+                            format!("swap {offer}->{ask} {amt} belief {bp} max_spread {ms:?}: gross {gross} expected {expected} limit {lim}")
+                        });
+                    }
+                    mon.stat("trio_swap_ok_with_belief");
+                }
+            }
             // C15: an accepted swap without belief price respects min(max_spread ?? 1%, 50%)
             if _bp.is_none() {
                 let gross = ret + sf_rec + pf + bf;
@@ -1145,6 +1163,31 @@ fn monitors(
         }
     } else if ok {
         w.last_swap = None;
+    }
+    // ---- C15 (rejection side): a swap that the pool quoted (Simulation answered), that the sender could
+    // fund, with swaps enabled, distinct pool assets and no receiver, can only have been refused by the
+    // spread assertion — then the documented limit must really have been exceeded
+    if let (ParsedOp::Swap(offer, ask, amt, bp, ms, to), false, Some(Outcome::Ok(q))) = (op, ok, sim) {
+        let funded = *offer < 3 && *ask < 3 && offer != ask && *amt > 0 && a.users[u][*offer] >= *amt && a.tog.2 && to.is_none();
+        let panicked = matches!(res, Outcome::Panic);
+        if funded && !panicked {
+            let gross = q.return_amount.u128() + q.swap_fee_amount.u128() + q.protocol_fee_amount.u128() + q.burn_fee_amount.u128();
+            let spread = q.spread_amount.u128();
+            let lim = ms.unwrap_or(E18 / 100).min(E18 / 2);
+            let exceeded = match bp {
+                Some(b) if *b > 0 => {
+                    let inv = Uint256::from(E18) * Uint256::from(E18) / Uint256::from(*b);
+                    let expected = Uint256::from(*amt) * inv / Uint256::from(E18);
+                    Uint256::from(gross) < expected && (expected - Uint256::from(gross)) * Uint256::from(E18) / expected > Uint256::from(lim)
+                }
+                Some(_) => true, // a zero belief price is refused outright
+                None => gross + spread > 0 && Uint256::from(spread) * Uint256::from(E18) / Uint256::from(gross + spread) > Uint256::from(lim),
+            };
+            mon.check("C15", "trio_within_limit_not_rejected", exceeded, || {
+                format!("swap {offer}->{ask} {amt} belief {bp:?} max_spread {ms:?} was refused although quoted gross {gross} spread {spread} is within the limit {lim}")
+            });
+            mon.stat("trio_swap_refused_by_spread_check");
+        }
     }
     // ---- C07 collect: exactly the entries above the threshold, to the configured collector only
     if let (ParsedOp::Collect, true) = (op, ok) {
